@@ -16,15 +16,18 @@ pub mod utc;
 pub use utc::*;
 
 pub(super) fn fixed_timezone(offset: &str) -> String {
-    let gmt_offset = offset[2..offset.find(':').unwrap_or(3)].to_string();
+    // The offset is +HH:MM, the hours can have two digits
+    let gmt_offset = offset
+        .get(1..offset.find(':').unwrap_or(3))
+        .and_then(|hours| hours.parse::<u32>().ok())
+        .unwrap_or(0);
 
-    if gmt_offset == "0" {
+    if gmt_offset == 0 {
         return "UTC".into();
     }
-    let gmt_sign = offset[0..1].to_string();
 
     format!(
         "Etc/GMT{sign}{gmt_offset}",
-        sign = if gmt_sign == "-" { "+" } else { "-" }
+        sign = if offset.starts_with('-') { "+" } else { "-" }
     )
 }
